@@ -114,12 +114,20 @@ func caseC06(c *Ctx) {
 	}
 	st := c06state{pre: map[string]string{}}
 	st.kind = []string{"empty", "missing", "preexisting", "below-file", "long-name"}[c.Pick(5, 2, 3, 1, 1)]
+	if !op.FromRoot && st.kind == "preexisting" && c.Chance(1, 5) {
+		// MkdirFromMarkdown accepts a root written as a path; its existence check must look at that path
+		forest[0].Name = []string{"lib/core", "./assets", "a/b/c"}[c.Draw(3)]
+		c.st.Count("root-written-as-a-path")
+	}
 	switch st.kind {
 	case "preexisting":
 		for _, r := range forest {
 			if c.Chance(1, 2) {
 				st.pre[r.Name] = []string{"d", "f", "l"}[c.Pick(3, 3, 1)]
 			}
+		}
+		if strings.Contains(forest[0].Name, "/") {
+			st.pre = map[string]string{forest[0].Name: "d"}
 		}
 		if len(st.pre) == 0 {
 			st.pre[forest[0].Name] = "d"
